@@ -19,6 +19,11 @@ func init() {
 		Doc: "for every sequence space s in 2..40 and 64, 65, 128, 129, 200, 254, 255: every window state (base, top) as the first pass through the sequence numbers leaves it (retransmission buffer filled only for the packets in flight), every forged ACK and NACK value 0..255: afterwards the window lies inside the one that was in flight and every slot a retransmission would read is filled (no nil packet for Serialize)",
 	})
 	simrt.Register(&simrt.Scenario{
+		Prop: "C07", Name: "gbn-nonfinal-flood", Enumerated: true, Count: fixed(4),
+		Run: c07Flood, MaxOps: 1 << 22, Horizon: time.Hour,
+		Doc: "the relay delivers, in step with the endpoint's expected sequence number, DATA packets whose final-chunk flag is not set (the honest peer - the mailbox layer never enables splitting - sends none): 8 MiB in all, to the server or the client, with and without keepalive; the endpoint must ignore them or fail the connection, not buffer them without limit for a message that never ends",
+	})
+	simrt.Register(&simrt.Scenario{
 		Prop: "C07", Name: "gbn-deserialize", Enumerated: true, Count: fixed(257),
 		Run: c07Deserialize, MaxOps: 1 << 40, Serial: true,
 		Doc: "gbn.Deserialize on every byte string of length 0..3 and, per first byte, every 4-byte string (quick tier: 4-byte strings only for first bytes that are a packet type, 0x00 or 0xFF); successful results are re-serialized and deserialized again",
@@ -498,4 +503,79 @@ func c07Window(rc *simrt.RunCtx) {
 	rc.ProbeN("c07.window-forgery-cases", cases)
 	rc.Progress()
 	rc.Fault(fmt.Sprintf("forged-ack-nack-s=%d", s))
+}
+
+
+// c07Flood: non-final chunks without end.
+func c07Flood(rc *simrt.RunCtx) {
+	toServer := rc.Idx()%2 == 0
+	keepalive := rc.Idx()/2 == 1
+	n := uint8(DefaultN)
+	tk := tknobs{handshake: 300 * time.Millisecond, static: true, resend: time.Second}
+	if keepalive {
+		tk.ping, tk.pong = 5*time.Second, 3*time.Second
+	}
+	lat := time.Millisecond
+	c2s := &netCfg{latMin: lat, latMax: lat}
+	s2c := &netCfg{latMin: lat, latMax: lat}
+	np := newNetPair(rc, c2s, s2c)
+	opts := []Option{WithTimeoutOptions(tk.opts()...)}
+	p := startPair(rc, np, n, opts, opts)
+	if !p.waitBoth(time.Minute) {
+		rc.HarnessError("fault-free handshake did not complete")
+		p.closeAll()
+		return
+	}
+	cli, _ := p.cli.get()
+	srv, _ := p.srv.get()
+	if cli == nil || srv == nil {
+		rc.HarnessError("fault-free handshake failed")
+		p.closeAll()
+		return
+	}
+	defer p.closeAll()
+	victim, l, name := srv, np.c2s, "server"
+	if !toServer {
+		victim, l, name = cli, np.s2c, "client"
+	}
+	rc.Knob("case", fmt.Sprintf("victim=%s keepalive=%v", name, keepalive))
+	recvRes := make(chan error, 1)
+	go func() {
+		_, err := victim.Recv()
+		recvRes <- err
+	}()
+	const chunk = 60 * 1024
+	const total = 8 << 20
+	payload := make([]byte, chunk)
+	s := int(n) + 1
+	sent := 0
+	for seq := 0; sent < total; seq = (seq + 1) % s {
+		pkt := append([]byte{DATA, byte(seq), FALSE, FALSE}, payload...)
+		l.inject(pkt, 0)
+		sent += chunk
+		time.Sleep(3 * time.Millisecond) // the endpoint takes it and acknowledges
+		if isClosed(victim) {
+			break
+		}
+	}
+	rc.Fault("non-final-chunk-flood")
+	select {
+	case err := <-recvRes:
+		if err == nil {
+			rc.Violate("c07.unbounded-buffering", name+"/recv-returned", "Recv returned a message although no final chunk was ever delivered")
+			return
+		}
+		rc.Probe("c07.flood-failed-the-connection")
+		rc.Progress()
+		return
+	default:
+	}
+	buffered := len(victim.recvBuf)
+	rc.Sample("victim=%s keepalive=%v: %d bytes of non-final chunks delivered, %d buffered, closed=%v", name, keepalive, sent, buffered, isClosed(victim))
+	if !isClosed(victim) && buffered >= total {
+		rc.Violate("c07.unbounded-buffering", "non-final-chunks", "the relay delivered %d bytes in DATA packets without the final-chunk flag; the %s acknowledged every one, holds all %d bytes in its reassembly buffer and is still open (no limit in sight: a relay can run the process out of memory before any authentication)", sent, name, buffered)
+		return
+	}
+	rc.Probe("c07.flood-ignored")
+	rc.Progress()
 }
